@@ -96,7 +96,7 @@ def exhaustive_family():
 
 def run(tier):
     seed = common.seed()
-    common.build()
+    common.build(bins=True)
     V = Verdict(PROP, tier)
     V.rule = ("publication calendars (business days, holidays, gaps of 1-11 days, year boundaries, malformed observations, the 2017 series overlap) served as "
               "Bank-of-Canada JSON per series by a fake requester, so the real URL choice, JSON parser and RateLoader run; 'today' set through the public test "
@@ -172,8 +172,86 @@ def run(tier):
     V.extra["exhaustive_family_cases"] = len(fam)
     V.extra["exhaustive_family_complete"] = True
     app_rows(V, tier, seed)
+    cli_cache_slice(V, tier, seed)
     V.sample({"lookup": fam[37][0], "published": {k.isoformat(): v[1] for k, v in sorted(fam[37][1].published.items())}})
-    return V.finish(floor_eval=500, floor_nontrivial=50, floors={"lookups_judged": 1000, "app_rows_judged": 100})
+    return V.finish(floor_eval=500, floor_nontrivial=50, floors={"lookups_judged": 1000, "app_rows_judged": 100, "binary_rows_judged": 10})
+
+
+def cli_cache_slice(V, tier, seed):
+    """The same rule through the real binary: $HOME/.acb holds complete year files written by the real cache writer
+    (so nothing needs downloading), and USD rows without a rate are converted by `acb`."""
+    import csv as _csv
+    n = {"quick": 3, "thorough": 24}[tier]
+    wd = common.workdir("c12cli")
+    real_today = datetime.date.today()
+    try:
+        for i in range(n):
+            rng = common.rng_for(seed, PROP, "cli", i)
+            y = rng.choice([2014, 2015, 2016, 2019, 2021, 2022])
+            cal = rr.gen_calendar(rng, y - 1, y)
+            home = os.path.join(wd, "h%d" % i)
+            cache = os.path.join(home, ".acb")
+            os.makedirs(cache)
+            filled = datetime.date(y + 1, 2, 10)
+            case = {"id": "p", "cache": "csv", "dir": cache,
+                    "runs": [{"today": filled.isoformat(), "remote": remote_spec(cal),
+                              "lookups": [datetime.date(y - 1, 6, 1).isoformat(), datetime.date(y, 6, 1).isoformat()]}]}
+            common.run_harness("rates", [case], tag="c12p", nproc=1)
+            if not all(os.path.exists(os.path.join(cache, "rates-%d.csv" % yy)) for yy in (y - 1, y)):
+                V.unjudged += 1
+                continue
+            dates = [d for d in interesting_dates(rng, cal, y, y, filled, 40) if d.year == y][:16]
+            good, bad = [], []
+            for d in dates:
+                e = rr.expected(cal, d, real_today)
+                (bad if e[0] == "err" else good).append((d, e))
+
+            def run(rows_dates, tag):
+                inp = os.path.join(home, "in-%s.csv" % tag)
+                lines = ["security,trade date,settlement date,action,shares,amount/share,currency"]
+                for k, (d, e) in enumerate(rows_dates):
+                    lines.append("S%d,%s,%s,Buy,10,2.00,USD" % (k, d.isoformat(), (d + datetime.timedelta(days=2)).isoformat()))
+                with open(inp, "w") as f:
+                    f.write("\n".join(lines) + "\n")
+                od = os.path.join(home, "out-%s" % tag)
+                return common.run_cli("acb", [inp, "-d", od, "--print-full-values"], home=home), od
+            if good:
+                r, od = run(good, "good")
+                V.count()
+                V.bump("binary_rows_judged", len(good))
+                V.nontriv(("cli", i))
+                if r["rc"] != 0:
+                    V.violation("acb fails although every row's rate is in the cache: %s [cli calendar #%d]" % (r["err"][-300:].decode("utf-8", "replace"), i),
+                                {"kind": "cli", "prop": PROP, "dates": [d.isoformat() for d, _ in good]}, {"what": "binary: determined rate rejected"})
+                else:
+                    for k, (d, e) in enumerate(good):
+                        pth = os.path.join(od, "S%d.csv" % k)
+                        cell = None
+                        if os.path.exists(pth):
+                            with open(pth, newline="") as f:
+                                rows_ = list(_csv.reader(f))
+                            if len(rows_) > 1 and "Amount" in rows_[0]:
+                                cell = rows_[1][rows_[0].index("Amount")]
+                        want = Fraction(20) * e[2]
+                        got = ref.first_money(cell) if cell else None
+                        if got is None or abs(got - want) > Fraction(1, 10 ** 12) * max(1, want):
+                            V.violation("acb converts the row of %s with another rate than the statement prescribes: cell %r, expected %s (rate of %s) [cli calendar #%d]"
+                                        % (d, cell, str(want), e[1], i),
+                                        {"kind": "cli", "prop": PROP, "date": d.isoformat(), "cell": cell, "expected_rate_date": str(e[1])},
+                                        {"what": "binary: wrong rate"})
+                            break
+            for j, (d, e) in enumerate(bad[:3]):
+                r, od = run([(d, e)], "bad%d" % j)
+                V.count()
+                V.bump("binary_error_rows_judged")
+                if r["rc"] == 0:
+                    V.violation("acb accepts the row of %s although no rate was published for it or the 7 days before [cli calendar #%d]" % (d, i),
+                                {"kind": "cli", "prop": PROP, "date": d.isoformat()}, {"what": "binary: missing rate accepted"})
+                elif not r["err"].strip():
+                    V.violation("acb stops without an explanatory error for %s" % d, {"kind": "cli", "prop": PROP, "date": d.isoformat()},
+                                {"what": "binary: silent failure"})
+    finally:
+        common.cleanup(wd)
 
 
 def app_rows(V, tier, seed):
